@@ -4,3 +4,5 @@ FUZZERS += fuzz_nlread
 FUZZERS += fuzz_solread
 SHIMS_prod += sol_rt
 LIBS_sol_rt := -lrapidcheck
+SHIMS_prod += expr_shim
+LIBS_expr_shim := -lrapidcheck
